@@ -365,6 +365,7 @@ func c16Child(r *ev.Run, batch int) {
 		return
 	}
 	nb := r.N(8, 32)
+	c16LeaderPart(r, m, batch, nb)
 	shapes := r.N(2, 24)
 	methods := []string{ovsdb.MonitorRPC, ovsdb.ConditionalMonitorRPC, ovsdb.ConditionalMonitorSinceRPC}
 	idx := 0
